@@ -6,7 +6,12 @@ package parser
 // expand into two parser tokens.
 
 import (
+	"errors"
+	"strings"
+
+	goerrors "github.com/ajitpratap0/GoSQLX/pkg/errors"
 	"github.com/ajitpratap0/GoSQLX/pkg/models"
+	"github.com/ajitpratap0/GoSQLX/pkg/sql/token"
 	"github.com/ajitpratap0/GoSQLX/pkg/sql/tokenizer"
 	vx "github.com/ajitpratap0/GoSQLX/zzvx"
 )
@@ -88,3 +93,81 @@ func vxMapping(maxK int) {
 func VxC05_Mapping2() { vxMapping(2) }
 func VxC05_Mapping3() { vxMapping(3) }
 func VxC05_Mapping4() { vxMapping(4) }
+
+// ---- the token an error is located at is the token the error talks about: a statement of the
+// truncation corpus that the parser accepts is corrupted at one token (cut there, deleted, or
+// replaced by one of four fixed tokens); when the parser's message names the offending token
+// ("got X" / "unexpected token: X") and carries a location, the token starting at that location
+// must be X, and the location must be the start of some token of the input.
+
+var vxBlameRepl = VxFixed(") SELECT x ,")
+
+func vxBlame() {
+	s := vx.Choice(len(vxCutToks))
+	full := vxCutToks[s]
+	opts := vxDialectOpts()
+	if _, err := NewParser(opts...).Parse(append(append([]token.Token{}, full...), VxEOF)); err != nil {
+		return // not an accepted statement under this dialect
+	}
+	k := vx.Choice(len(full))
+	kind := vx.Choice(2 + len(vxBlameRepl))
+	toks := append([]token.Token{}, full[:k]...)
+	switch {
+	case kind == 0: // cut
+	case kind == 1: // delete
+		toks = append(toks, full[k+1:]...)
+	default:
+		toks = append(toks, vxBlameRepl[kind-2])
+		toks = append(toks, full[k+1:]...)
+	}
+	toks = append(toks, VxEOF)
+	pos := make([]TokenPosition, len(toks))
+	for j := range toks {
+		pos[j] = TokenPosition{OriginalIndex: j, Start: models.Location{Line: 1 + j/8, Column: 10*(j%8) + 1}, End: models.Location{Line: 1 + j/8, Column: 10*(j%8) + 9}}
+	}
+	VxNoteToks(toks)
+	vx.Notef("corrupted at %d kind=%d", k, kind)
+	_, err := NewParser(opts...).ParseWithPositions(&ConversionResult{Tokens: toks, PositionMapping: pos})
+	if err == nil {
+		return
+	}
+	var se *goerrors.Error
+	if !errors.As(err, &se) {
+		return // judged by C13
+	}
+	loc := se.Location
+	if loc.Line == 0 && loc.Column == 0 {
+		return // no location claimed
+	}
+	at := -1
+	for j := range pos {
+		if pos[j].Start == loc {
+			at = j
+		}
+	}
+	vx.Assertf("C05.blame_is_a_token", at >= 0, "error located at %d:%d, where no token starts: %v", loc.Line, loc.Column, se.Message)
+	if at < 0 {
+		return
+	}
+	// the innermost "got X" / "unexpected token: X" of the message
+	msg := err.Error()
+	named := ""
+	for _, key := range []string{"unexpected token: ", ", got "} {
+		if j := strings.LastIndex(msg, key); j >= 0 {
+			w := msg[j+len(key):]
+			e := 0
+			for e < len(w) && w[e] != ' ' && w[e] != '\n' && w[e] != '\t' {
+				e++
+			}
+			named = w[:e]
+		}
+	}
+	if named == "" {
+		return
+	}
+	tk := toks[at]
+	same := strings.EqualFold(named, tk.Type.String()) || strings.EqualFold(named, tk.Literal) || (named == "EOF" && tk.Type == models.TokenTypeEOF)
+	vx.Assertf("C05.blame_names_its_token", same, "message names token %q but is located at %d:%d, where %q (%s) starts", named, loc.Line, loc.Column, tk.Literal, tk.Type.String())
+}
+
+func VxC05_Blame() { vxBlame() }
